@@ -225,11 +225,11 @@ theorem G_diags (nroot : Nat) (st : PState) (d : List Diag) (h : G T nroot st) :
 /-! ### argument collection -/
 
 def nextLev (lev : Int) (t : Tok) : Int :=
-  if txtIs t "}" then (if txtIs t "{" then lev + 1 else lev) - 1 else (if txtIs t "{" then lev + 1 else lev)
+  if txtIsNV t "}" then (if txtIsNV t "{" then lev + 1 else lev) - 1 else (if txtIsNV t "{" then lev + 1 else lev)
 
 theorem collectArg_cons (endTxt : Str) (lev : Int) (t : Tok) (ts acc : List Tok) :
     collectArg endTxt lev (t :: ts) acc =
-      if (t.txt == endTxt && nextLev lev t == 0) = true then some (acc.reverse, ts)
+      if (!isVerb t && t.txt == endTxt && nextLev lev t == 0) = true then some (acc.reverse, ts)
       else collectArg endTxt (nextLev lev t) ts (t :: acc) := rfl
 
 theorem collectArg_mem (endTxt : Str) : ∀ (buf : Buf) (lev : Int) (acc out rest' : List Tok),
